@@ -124,11 +124,13 @@ fn hexd(alg: &'static digest::Algorithm, data: &[u8]) -> String {
 /// identify each recorded entry by the digest of the file it must be, checking every requested algorithm
 fn entries_of(map: &std::collections::BTreeMap<in_toto::models::VirtualTargetPath, in_toto::models::TargetDescription>,
               algs: &[&str], class: usize, big: bool) -> (Vec<Value>, bool) {
-    let mut table: HashMap<String, &str> = HashMap::new();
+    // (algorithm, digest) -> file: a digest filed under the wrong algorithm identifies nothing
+    let mut table: HashMap<(&str, String), &str> = HashMap::new();
     for f in ["F", "F2", "G", "DF", "DH"] {
-        table.insert(hexd(&digest::SHA256, &content(f, big)), f);
-        table.insert(hexd(&digest::SHA512, &content(f, big)), f);
+        table.insert(("sha256", hexd(&digest::SHA256, &content(f, big))), f);
+        table.insert(("sha512", hexd(&digest::SHA512, &content(f, big))), f);
     }
+    let distinct_algs: std::collections::BTreeSet<&str> = algs.iter().copied().collect();
     let mut out = vec![];
     let mut ok = true;
     for (k, t) in map {
@@ -136,14 +138,14 @@ fn entries_of(map: &std::collections::BTreeMap<in_toto::models::VirtualTargetPat
         for a in algs {
             let ha = if *a == "sha256" { HashAlgorithm::Sha256 } else { HashAlgorithm::Sha512 };
             match t.get(&ha) {
-                Some(h) => ids.push(table.get(&data_encoding::HEXLOWER.encode(h.value())).copied().unwrap_or("?")),
+                Some(h) => ids.push(table.get(&(*a, data_encoding::HEXLOWER.encode(h.value()))).copied().unwrap_or("?")),
                 None => {
                     ok = false;
                     ids.push("missing-alg")
                 }
             }
         }
-        if t.len() != algs.len() || ids.iter().any(|x| *x != ids[0]) || ids[0] == "?" {
+        if t.len() != distinct_algs.len() || ids.iter().any(|x| *x != ids[0]) || ids[0] == "?" {
             ok = false;
         }
         out.push(json!({"key": unmap_path(k.value(), class), "file": ids.first().copied().unwrap_or("?")}));
@@ -155,8 +157,9 @@ pub fn run(scn: &Value) -> Value {
     let i = scn["i"].as_u64().unwrap_or(0) as usize;
     let class = (i + seed() as usize) % 4;
     let big = i % 97 == 0;
-    let algsets: [&[&str]; 3] = [&["sha256"], &["sha512"], &["sha256", "sha512"]];
-    let algs = algsets[(i / 4 + seed() as usize) % 3];
+    // selections of hash algorithms: single, both in either order, with a repetition
+    let algsets: [&[&str]; 6] = [&["sha256"], &["sha512"], &["sha256", "sha512"], &["sha512", "sha256"], &["sha256", "sha256", "sha512"], &["sha512", "sha512"]];
+    let algs = algsets[(i / 4 + seed() as usize) % 6];
     let tmp = tempfile::tempdir().unwrap();
     let root = tmp.path().canonicalize().unwrap();
     build_tree(&root, &scn["fs"], &scn["flav"], class, big);
